@@ -57,6 +57,30 @@ Proof.
   replace (m' - m) with (S (m' - S m)) by lia. cbn [Nat.mul]. lia.
 Qed.
 
+Lemma rf_minR_spec body mn minb (Hb : forall p q, In q (body p) -> p <= q /\ minb <= q - p) :
+  forall fuel count pos c q, rf_minR body mn fuel count pos = Some (Some (c, q)) ->
+    count <= c /\ pos <= q /\ (c - count) * minb <= q - pos /\ nlt c mn = false.
+Proof.
+  induction fuel as [|f IH]; intros count pos c q H; cbn [rf_minR] in H; [discriminate|].
+  destruct (nlt count mn) eqn:E.
+  - destruct (body pos) as [|x l] eqn:Eb; [discriminate|].
+    assert (Hin : In x (body pos)) by (rewrite Eb; left; auto).
+    destruct (Hb _ _ Hin) as [H1 H2].
+    destruct (IH _ _ _ _ H) as (A1 & A2 & A3 & A4). repeat split; auto; try lia.
+    replace (c - count) with (S (c - S count)) by lia. cbn [Nat.mul]. lia.
+  - injection H as <- <-. repeat split; auto; lia.
+Qed.
+Lemma rf_moreR_spec body mx (Hb : forall p q, In q (body p) -> p <= q) :
+  forall fuel count pos l, rf_moreR body mx fuel count pos = Some l -> forall x, In x l -> pos <= x.
+Proof.
+  induction fuel as [|f IH]; intros count pos l H x Hx; cbn [rf_moreR] in H; [discriminate|].
+  destruct (nlt count mx); [|injection H as <-; inversion Hx].
+  destruct (body pos) as [|q t] eqn:Eb; [injection H as <-; inversion Hx|].
+  assert (Hin : In q (body pos)) by (rewrite Eb; left; auto). pose proof (Hb _ _ Hin).
+  destruct (rf_moreR body mx f (S count) q) as [l'|] eqn:E; [|discriminate]. injection H as <-.
+  destruct Hx as [<-|Hx]; auto. specialize (IH _ _ _ E x Hx). lia.
+Qed.
+
 Lemma fold_min_bound (f : op -> N) : forall l a,
   (fold_left (fun m y => let k := f y in if (k <? m)%N then k else m) l a <= a)%N
   /\ forall x, In x l -> (fold_left (fun m y => let k := f y in if (k <? m)%N then k else m) l a <= f x)%N.
@@ -134,6 +158,20 @@ Proof.
       assert ((mn * min_length o <= mn * l)%N) by (apply N.mul_le_mono_l; lia).
       assert (N.to_nat l * N.to_nat mn <= q - p) by lia.
       nia.
+  - (* RFixed *) cbn in Hsim. destruct Hsim as (Hs2 & Hlen & Hfix).
+    destruct (rf_minR _ _ _ _ _) as [[[c pos]|]|] eqn:Em; try (inversion Hin; fail).
+    assert (Hb : forall p q, In q (Rop input ci multi o p) -> p <= q /\ N.to_nat (min_length o) <= q - p).
+    { intros p0 q0 Hq0. destruct (IHo Hs2 p0 q0 Hq0) as [L1 L2]. split; auto. lia. }
+    destruct (rf_minR_spec _ mn _ Hb _ _ _ _ _ Em) as (A1 & A2 & A3 & A4).
+    unfold nlt in A4. apply N.ltb_ge in A4.
+    assert (Hq : pos <= q).
+    { destruct (rf_moreR _ _ _ _ _) as [l0|] eqn:Er; [|inversion Hin].
+      destruct Hin as [<-|Hin]; auto.
+      eapply (rf_moreR_spec _ mx (fun p q Hq => proj1 (Hb p q Hq))); eauto. }
+    split; [lia|].
+    pose proof (smul_le mn (min_length o)).
+    assert (N.to_nat mn * N.to_nat (min_length o) <= pos - p) by nia.
+    lia.
   - (* Unamb *) cbn in Hsim. destruct Hsim as [Hs2 Hbo].
     destruct (un_probeR _ _ _ _ _ _) as [[p' m]|] eqn:E; [|inversion Hin].
     destruct (nlt m mn) eqn:Em; [inversion Hin|]. destruct Hin as [<-|[]].
